@@ -1,12 +1,14 @@
 #!/bin/bash
 # usage: tools/mutant_run.sh <dir with patch.diff demo.py> <Cxx> [tier]
-# applies the patch to /repo, runs demo + check, always restores /repo.
+# applies the patch in a scratch worktree of /repo HEAD (so that checks running on /repo are not disturbed),
+# runs demo + check against it (VERIF_REPO), removes the worktree.  Equivalent to `git -C /repo apply` + check + checkout.
 d=$1; p=$2; tier=${3:-quick}
-cd /repo || exit 2
-if ! git diff --quiet; then echo "/repo dirty, abort"; exit 2; fi
-echo "== clean demo"; PYTHONPATH=/repo OMP_NUM_THREADS=1 timeout 900 /venv/bin/python -W ignore $d/demo.py >/dev/null 2>&1; echo "demo exit on clean: $?"
-git apply $d/patch.diff || { echo "patch does not apply"; exit 2; }
-trap 'git -C /repo checkout -- .' EXIT
-echo "== mutated demo"; PYTHONPATH=/repo OMP_NUM_THREADS=1 timeout 900 /venv/bin/python -W ignore $d/demo.py >/dev/null 2>&1; echo "demo exit on mutant: $?"
-cd /verif && ./check $p --tier $tier 2>&1 | grep -E "VIOLATION|KNOWN-FINDING|^C[0-9]+ |^   " | cut -c1-400 | head -12
+wt=/tmp/mutrun/$$
+mkdir -p /tmp/mutrun
+git -C /repo worktree add -q --detach $wt HEAD || exit 2
+trap 'git -C /repo worktree remove --force '$wt EXIT
+echo "== clean demo"; PYTHONPATH=$wt OMP_NUM_THREADS=1 timeout 900 /venv/bin/python -W ignore $d/demo.py >/dev/null 2>&1; echo "demo exit on clean: $?"
+git -C $wt apply $d/patch.diff || { echo "patch does not apply"; exit 2; }
+echo "== mutated demo"; PYTHONPATH=$wt OMP_NUM_THREADS=1 timeout 900 /venv/bin/python -W ignore $d/demo.py >/dev/null 2>&1; echo "demo exit on mutant: $?"
+cd /verif && VERIF_REPO=$wt ./check $p --tier $tier 2>&1 | grep -E "VIOLATION|KNOWN-FINDING|^C[0-9]+ |^   " | cut -c1-400 | head -12
 echo "check exit: ${PIPESTATUS[0]}"
